@@ -39,7 +39,7 @@ ASSUMPTIONS = [
     "FAULT_IN_EVENT_APPLY: on a path-style side no fault is injected into provider calls made while an event is being applied (open finding KF-20)",
     "FAULT_IN_CHANGE_FILL: faults on calls issued from SyncState.change() are exempt from the reporting clause only (open finding KF-21)",
     "AFTER_FAULT_THEN_RENAME: an after-effect fault is not placed in a window in which a rename follows it; part single: histories whose fault window renames something are enumerated with before-effect faults only (open finding KF-27)",
-    "AFTER_FAULT_THEN_RMTREE: no after-effect fault in a case that later removes a folder tree (open finding KF-53: the duplicate such a fault may legitimately leave as '.conflicted' makes the folder undeletable for ever)",
+    "AFTER_FAULT_THEN_RMTREE: no after-effect fault in a case that later deletes anything (a folder, emptied or as a tree, is what matters) (open finding KF-53: the duplicate such a fault may legitimately leave as '.conflicted' makes the folder undeletable for ever)",
     "DIRMOVE_ISOLATED: the id/id exception covers new files only (no mkdir inside a folder renamed in the same window): with a fault in between the other side keeps a stale copy of the folder (KF-07d)",
     "DIRMOVE_TOMB counts deletions of BOTH sides (a delete the engine carried out under a fault may leave a tombstone on the side it was applied to)",
     "CloudSync.authenticate is overridden (documented override point) to reconnect with the stored credentials",
@@ -169,7 +169,7 @@ def gen(d, tier):
         kind = d.weighted((("temp", 4), ("disc", 3), ("token", 2), ("space", 2)))
         only = d.choice((None, "mut", "xfer"))
         phase = d.choice(("before", "after"))
-        if phase == "after" and any(a[0] == "u" and a[2] == "rmtree" for a in acts[pos:]):
+        if phase == "after" and any(a[0] == "u" and a[2] in ("rmtree", "delete") for a in acts[pos:]):
             # hazard AFTER_FAULT_THEN_RMTREE (open finding KF-53): an after-effect fault may leave a '.conflicted' copy
             # on one side; a folder holding one can never be removed by the engine
             phase = "before"
@@ -343,7 +343,7 @@ def run_single(trace):
     # hazard AFTER_FAULT_THEN_RENAME (open finding KF-27): the fault may land anywhere in the window, so a history
     # whose fault window renames something is only enumerated with before-effect faults
     first = next(i for i, a in enumerate(trace["acts"]) if a[0] == "settle")
-    renames = any(a[0] == "u" and a[2] in ("rename", "rmtree") for a in trace["acts"][first:])
+    renames = any(a[0] == "u" and a[2] in ("rename", "rmtree", "delete") for a in trace["acts"][first:])
     kinds = [kp for kp in SINGLE_KINDS if not (renames and kp[1] == "after")]
     for n in range(total):
         for kind, phase in kinds:
